@@ -196,7 +196,40 @@ fn shapes(tier: Tier) -> Vec<Shape> {
                 }
             }
         }
-        // depth 3 along lazy spines
+        // depth 3: every chain of three kinds in every position
+        for k1 in &ks {
+            for p1 in 0..k1.arity {
+                for k2 in &ks {
+                    for p2 in 0..k2.arity {
+                        for k3 in &ks {
+                            if k1.arity + k2.arity + k3.arity > 6 {
+                                continue; // keeps a shape at <= 5 probes (5^5 histories)
+                            }
+                            let mut n = 0;
+                            let mut c1 = Vec::new();
+                            for i in 0..k1.arity {
+                                if i == p1 {
+                                    let mut c2 = Vec::new();
+                                    for j in 0..k2.arity {
+                                        if j == p2 {
+                                            let c3: Vec<RE> = (0..k3.arity).map(|_| probe_leaf(&mut n)).collect();
+                                            c2.push((k3.build)(c3));
+                                        } else {
+                                            c2.push(probe_leaf(&mut n));
+                                        }
+                                    }
+                                    c1.push((k2.build)(c2));
+                                } else {
+                                    c1.push(probe_leaf(&mut n));
+                                }
+                            }
+                            out.push(Shape { label: format!("{}[{}]={}[{}]={}/d3", k1.label, p1, k2.label, p2, k3.label), tree: (k1.build)(c1) });
+                        }
+                    }
+                }
+            }
+        }
+        // depth 3 along lazy spines (also the wider ones)
         let lazy: Vec<&Kind> = ks.iter().filter(|k| ["If", "And", "Or", "Eq"].contains(&k.label.as_str())).collect();
         for k1 in &lazy {
             for p1 in 0..k1.arity {
@@ -415,7 +448,7 @@ pub fn run(tier: Tier) -> i32 {
     let shapes = shapes(tier);
     rep.bound("shapes", shapes.len());
     rep.bound("answers_per_probe", N_ANSWERS);
-    rep.bound("depth", tier.pick("1 (all kinds) + 2 (every kind in every child position of every kind)", "as quick + both children nested over 12 representative kinds + depth 3 along lazy spines"));
+    rep.bound("depth", tier.pick("1 (all kinds) + 2 (every kind in every child position of every kind)", "as quick + both children nested over 12 representative kinds + every chain of three kinds in every position (<= 5 probes) + depth 3 along lazy spines"));
     let (acc, stats) = shapes
         .par_iter()
         .map(|s| {
